@@ -143,6 +143,11 @@ def one(ctx, rng, xr, ops, names):
         order = list(rng.permutation(list(x.dims)))
         x = x.transpose(*order)
         x = x.copy(data=np.ascontiguousarray(x.values))
+    u_ = rng.random()
+    if u_ < 0.15:
+        x = x.roll(dir=1, roll_coords=True)          # seam between the first two stored direction labels
+    elif u_ < 0.3:
+        x = x.roll(dir=int(rng.integers(1, x.sizes["dir"])), roll_coords=True)
     aux = O.make_aux(rng, x, xr)
     f32 = dt == "float32"
     lead = [d for d in x.dims if d not in ("freq", "dir")]
@@ -155,6 +160,12 @@ def one(ctx, rng, xr, ops, names):
         # that consumes it is driven (pairing must be by dimension name, not by axis position)
         chosen.append(str(rng.choice(["ptm1", "ptm2", "ptm4"])))
     ds = x.to_dataset(name="efth")
+    if rng.random() < 0.5:
+        # datasets as the readers return them: wind and depth variables next to the spectra (the Dataset accessor must
+        # still do exactly what the efth accessor does with the same arguments)
+        for k_, nm_ in (("wspd", "wspd"), ("wdir", "wdir"), ("dpt", "dpt")):
+            if set(aux[k_].dims) <= set(x.dims):
+                ds[nm_] = aux[k_]
     for name in chosen:
         op = ops[name]
         if nf < op.min_nf:
